@@ -30,6 +30,8 @@ EPS_CAP = 1e-8
 LN10 = math.log(10.0)
 KEY_ALT = "add-formula-present-undersaturated"
 KEY_REL = "related-exchanger-ignores-predissolved-amount"
+KEY_TWOSS = "phase-in-two-solid-solutions"
+R_KJ = 0.00831470
 KEY_RETRY = "related-exchanger-capacity-after-failed-attempt"
 KEY_NEG = "negative-residual-moles-after-complete-dissolution"
 KEY_PREC = "related-exchanger-of-precipitate-only-phase-reset"
@@ -73,7 +75,7 @@ def db_info(ctx, exe, db):
             phases[name] = {"elts": elts, "gas": gas, "redox": any(s in ("e-", "O2") for s in sp)}
         elif w[0] == "M":
             masters[unhex(w[1])] = int(w[3])
-    return {"phases": phases, "ex": "X" in masters, "hfo": "Hfo_w" in masters and "Hfo_s" in masters}
+    return {"phases": phases, "ex": "X" in masters, "hfo": "Hfo_w" in masters and "Hfo_s" in masters, "elements": set(masters)}
 
 
 def run_batch(ctx, exe, batch, probes=None):
@@ -159,6 +161,9 @@ def parse_blocks(lines):
                 cur["R"][unhex(w[1])] = unhexd(w[2][1:])
             elif w[0] == "NOROW":
                 cur["norow"] = True
+            elif w[0] == "S":
+                cur.setdefault("S", {})[unhex(w[1])] = {"a0": unhexd(w[3]), "a1": unhexd(w[4]), "tk": unhexd(w[10]), "icase": int(w[11]),
+                                                        "ag0": unhexd(w[12]), "ag1": unhexd(w[13])}
             elif w[0] == "P":
                 cur["P"][unhex(w[2])] = {"moles": unhexd(w[3]), "f": unhexd(w[4]), "si_t": unhexd(w[6]), "initial": unhexd(w[14]),
                                          "lk": unhexd(w[8]), "iap": unhexd(w[9]), "in": w[16] == "1"}
@@ -192,6 +197,25 @@ def valid_phase(moles, d, initial, opt):
     return None
 
 
+def ss_expected(ss):
+    """(tk, ag0, ag1) derived from the INPUT TEXT by the rules of the reader as coded (read.cpp: -tempk x -> x, -tempc / -temp
+    x -> x + 298.15 [sic]; tidy.cpp ss_calc_a0_a1), or None for forms not modelled"""
+    if ss["ideal"]:
+        return None
+    tk = ss["tempk"] if "tempk" in ss else (ss["tempc"] + 298.15 if "tempc" in ss else (ss["temp"] + 298.15 if "temp" in ss else 298.15))
+    rt = R_KJ * tk
+    p = ss["p"]
+    if ss["parm"] == "Gugg_nondim":
+        return tk, p[0] * rt, p[1] * rt
+    if ss["parm"] == "Gugg_kJ":
+        return tk, p[0], p[1]
+    if ss["parm"] == "Thompson":
+        return tk, (p[0] + p[1]) / 2, (p[0] - p[1]) / 2
+    if ss["parm"] == "Margules":
+        return tk, (p[0] + 3 * p[1] / 4) * rt, (p[1] / 4) * rt
+    return None
+
+
 def direct_oracle(spec, c):
     """evaluate the property statement on the implementation's own public output.  Returns (problems, stats, alt_problems)"""
     blocks = parse_blocks(c["lines"])
@@ -215,7 +239,12 @@ def direct_oracle(spec, c):
     for p in spec["phases"]:
         prev[p["name"]] = p["moles"]
     stage_of_sim = {}
+    last_R = None
     cur_phases = spec["phases"]
+    cur_ss = spec.get("ss")
+    ss_by_modify = False
+    ss_seen = set()
+    twoss, sstie = [], []
     redefined = set()
     for b in blocks:
         if b["state"] in (2, 3) and not b["norow"]:
@@ -251,8 +280,18 @@ def direct_oracle(spec, c):
             cur_phases = spec["stages"][stg - 1]["redef"]
             for p in cur_phases:
                 prev[p["name"]] = p["moles"]
+        if stg >= 1 and stg - 1 < len(spec["stages"]) and stg not in ss_seen and cur_ss is not None:
+            ss_seen.add(stg)
+            sg = spec["stages"][stg - 1]
+            if "ss_redef" in sg:
+                cur_ss, ss_by_modify = sg["ss_redef"], False
+                st["ss_redefinitions"] = st.get("ss_redefinitions", 0) + 1
+            elif sg.get("ss_modify_ideal"):
+                cur_ss, ss_by_modify = dict(cur_ss, ideal=True), True
+                st["ss_made_ideal_by_modify"] = st.get("ss_made_ideal_by_modify", 0) + 1
         incr = stg >= 1 and stg - 1 < len(spec["stages"]) and spec["stages"][stg - 1].get("incremental") and b["step"] > 1
         st["calcs"] += 1
+        last_R = R
         if stg in redefined:
             st["calcs_after_redefinition"] = st.get("calcs_after_redefinition", 0) + 1
         if b["sim"] >= 100000:
@@ -351,8 +390,16 @@ def direct_oracle(spec, c):
                 if abs(sx - ref) > EPS_CAP * ref and abs(sx - ref) > 1e-15:
                     problems.append(f"block {b['k']}: surface holds {sx!r} mol of {k} sites but {ref!r} at the start of the calculation")
                 last_step["sys:" + k] = sx
-        if "ss" in spec:
-            ss = spec["ss"]
+        if cur_ss is not None:
+            ss = cur_ss
+            # parameters as the input text defines them against what the engine holds (ag0/ag1 are set once, at the definition)
+            exp_, eng_ = ss_expected(ss), b.get("S", {}).get(ss["name"])
+            if exp_ and eng_:
+                st["ss_param_checks"] = st.get("ss_param_checks", 0) + 1
+                for nm_, ev, gv in (("ag0", exp_[1], eng_["ag0"]), ("ag1", exp_[2], eng_["ag1"])):
+                    if abs(ev - gv) > 1e-9 * max(abs(ev), abs(gv)) + 1e-300:
+                        sstie.append(f"block {b['k']}: solid solution {ss['name']} -{ss['parm']} {ss['p']}: engine holds {nm_} = {gv!r} kJ/mol, "
+                                     f"the reader's rules applied to the input text give {ev!r} (tk {exp_[0]})")
             ns = [R.get(f"ss:{x['name']}") for x in ss["comps"]]
             if all(n is not None for n in ns):
                 tot = sum(ns)
@@ -366,8 +413,27 @@ def direct_oracle(spec, c):
                             if si is None or si == -99.99 or n <= 0:
                                 continue
                             if abs(si - math.log10(n / tot)) > EPS_SI:
-                                problems.append(f"block {b['k']}: ideal solid-solution component {x['name']}: log activity (SI) {si!r} but "
+                                (twoss if "ss2" in spec else problems).append(f"block {b['k']}: ideal solid-solution component {x['name']}: log activity (SI) {si!r} but "
                                                 f"log10(mole fraction) = {math.log10(n / tot)!r}")
+    # a phase that is a component of two solid solutions: S_S() only shows the first one; the second one's composition is in DUMP
+    if "ss2" in spec and c.get("dump") and last_R:
+        try:
+            for e in rawparse.parse(c["dump"]):
+                if e["keyword"] == "SOLID_SOLUTIONS_RAW" and e["number"] == 1:
+                    fl = rawparse.flat(e)
+                    for ssd in (spec["ss"], spec["ss2"]):
+                        if not ssd["ideal"]:
+                            continue
+                        ns = [float(fl.get(f"solid_solution[{ssd['name']}]/component[{x['name']}]/moles", "nan")) for x in ssd["comps"]]
+                        if any(n != n for n in ns) or sum(ns) <= 1e-15:
+                            continue
+                        for x, n in zip(ssd["comps"], ns):
+                            si = last_R.get(f"si:{x['name']}")
+                            if si is not None and si != -99.99 and n > 1e-15 and abs(si - math.log10(n / sum(ns))) > EPS_SI:
+                                twoss.append(f"DUMP + SI: ideal solid solution {ssd['name']} holds {x['name']} at mole fraction {n / sum(ns)!r} "
+                                             f"(log10 {math.log10(n / sum(ns))!r}) but its log activity SI = {si!r}")
+        except Exception as ex:
+            st["dump_parse_error"] = str(ex)[:100]
     # DUMP: the saved assemblage holds the amounts of the last calculation
     if c.get("dump") and spec["phases"] and last_in_sim:
         try:
@@ -390,6 +456,8 @@ def direct_oracle(spec, c):
     st["rel"] = rel
     st["prec"] = prec
     st["neg"] = neg
+    st["twoss"] = twoss
+    st["sstie"] = sstie
     st["retry"] = retry
     return problems, st, alt
 
@@ -480,6 +548,14 @@ def run_corpus(ctx, exe):
         if st["neg"]:
             vf = [r for r in vf if not (r[2].startswith("valid") and -1e-12 < r[5] < 0)]
         tf = [r for r in rl if r[0] == "T" and not r[4]]
+        two = []
+        if "ss2" in spec:
+            shared = [r for r in vf if r[2] in ("ss-ideal-activity", "ss-binary-activity")]
+            vf = [r for r in vf if r not in shared]
+            tf = [r for r in tf if r[2] != "ss-phase-copy"]
+            two = st["twoss"] or [f"{r[2]} {r[3]}: SI = {r[5]!r} but log10(lambda*x) = {r[6]!r}" for r in shared]
+        if st["sstie"]:
+            tf = tf + [("T", "-", "ss-parameters-from-input", m[:160], False, 0.0, 0.0) for m in st["sstie"][:3]]
         replay = {"spec": spec, "db": data["db"], "input": text, "corpus": f.name}
         if problems or vf:
             ctx.violation("corpus case violates the property beyond its recorded finding: " +
@@ -489,7 +565,8 @@ def run_corpus(ctx, exe):
             ctx.violation("corpus case: model/code correspondence broken", dict(replay, correspondence=[t[:4] for t in tf[:5]]),
                           found_input=False)
             continue
-        for key, msgs in ((KEY_ALT, alt), (KEY_REL, st["rel"]), (KEY_PREC, st["prec"]), (KEY_NEG, st["neg"]), (KEY_RETRY, st["retry"])):
+        for key, msgs in ((KEY_ALT, alt), (KEY_REL, st["rel"]), (KEY_PREC, st["prec"]), (KEY_NEG, st["neg"]), (KEY_RETRY, st["retry"]),
+                          (KEY_TWOSS, two)):
             if msgs:
                 ctx.finding(key, msgs[0], dict(replay, oracle=msgs[:5]))
     ctx.cov["corpus_cases"] = n
@@ -571,6 +648,7 @@ def run(ctx):
     prec_cases = []
     neg_cases = []
     retry_cases = []
+    extra_cases = {}
     for i in ids:
         s, c = byid[i], results[i]
         hist["db"][s["db"]] = hist["db"].get(s["db"], 0) + 1
@@ -624,6 +702,18 @@ def run(ctx):
             vf_main = [r for r in vf_main if not (r[2].startswith("valid") and -1e-12 < r[5] < 0)]
             if not problems and not vf_main:
                 neg_cases.append((i, st["neg"]))
+        if "ss2" in s:
+            # one phase in two solid solutions of the assemblage: fraction and lambda are stored on the shared phase, so at most
+            # one of the two mass-action rows is right; the model sees the same (V ss-*-activity, T ss-phase-copy)
+            shared = [r for r in vf_main if r[2] in ("ss-ideal-activity", "ss-binary-activity")]
+            vf_main = [r for r in vf_main if r not in shared]
+            tf = [r for r in tf if r[2] != "ss-phase-copy"]
+            if (shared or st["twoss"]) and not problems and not vf_main:
+                extra_cases.setdefault(KEY_TWOSS, []).append((i, st["twoss"] or [f"{r[2]} {r[3]}: SI = {r[5]!r} but log10(lambda*x) = {r[6]!r}" for r in shared]))
+        if st["sstie"]:
+            tf = tf + [("T", "-", "ss-parameters-from-input", m[:160], False, 0.0, 0.0) for m in st["sstie"][:3]]
+        for k in ("ss_redefinitions", "ss_made_ideal_by_modify", "ss_param_checks"):
+            hist[k] = hist.get(k, 0) + st.get(k, 0)
         if len(ctx.cov["samples"]) < 3 and st["calcs"] and any(r[0] == "V" and r[2].startswith("valid") for r in rl):
             ex_ = next(r for r in rl if r[0] == "V" and r[2].startswith("valid"))
             ctx.sample({"case": i, "db": s["db"], "temp": s["temp"], "phases": s["phases"], "relation": ex_[2], "phase": ex_[3],
@@ -656,6 +746,9 @@ def run(ctx):
     if neg_cases:
         hist["negative_residue_cases"] = len(neg_cases)
         deferred.append(("neg", neg_cases[0]))
+    for key, lst in extra_cases.items():
+        hist["cases:" + key] = len(lst)
+        deferred.append(("extra", (key, lst[0])))
     if prec_cases:
         hist["related_exchanger_precipitate_only_cases"] = len(prec_cases)
         deferred.append(("prec", prec_cases[0]))
@@ -723,6 +816,9 @@ def run(ctx):
                 small, t2, m2 = byid[i], texts[i], msgs
             ctx.finding(KEY_NEG, "a phase that dissolves completely ends with a negative amount: " + m2[0],
                         {"spec": small, "db": small["db"], "input": t2, "oracle": m2[:5]})
+        elif kind == "extra":
+            key, (i, msgs) = what
+            ctx.finding(key, msgs[0], {"spec": byid[i], "db": byid[i]["db"], "input": texts[i], "oracle": msgs[:5]})
         elif kind == "retry":
             i, msgs = what
             ctx.finding(KEY_RETRY, "EXCHANGE related to an equilibrium phase has a wrong number of sites after failed attempts: " + msgs[0],
@@ -770,12 +866,20 @@ def replay(ctx, data):
     vf_main = [r for r in vf if r[2] != "valid-alt"]
     if "spec" in data and st.get("neg"):
         vf_main = [r for r in vf_main if not (r[2].startswith("valid") and -1e-12 < r[5] < 0)]
+    two = []
+    if "spec" in data and "ss2" in data["spec"]:
+        shared = [r for r in vf_main if r[2] in ("ss-ideal-activity", "ss-binary-activity")]
+        vf_main = [r for r in vf_main if r not in shared]
+        tf = [r for r in tf if r[2] != "ss-phase-copy"]
+        two = st["twoss"] or [f"{r[2]} {r[3]}" for r in shared]
     if vf_main or problems:
         ctx.violation("replayed input still violates the property: " + (problems[0] if problems else vf_main[0][2]), data)
     elif alt:
         ctx.finding(KEY_ALT, "replayed input: " + alt[0], data)
     elif "spec" in data and st.get("neg") and not [r for r in vf_main if not (-1e-12 < r[5] < 0)]:
         ctx.finding(KEY_NEG, "replayed input: " + st["neg"][0], data)
+    elif two:
+        ctx.finding(KEY_TWOSS, "replayed input: " + two[0], data)
     elif "spec" in data and st.get("retry"):
         ctx.finding(KEY_RETRY, "replayed input: " + st["retry"][0], data)
     elif "spec" in data and st.get("prec"):
